@@ -20,7 +20,8 @@ def run(tier, acc):
     acc.violations += cc.records("C03", res, cs, KINDS)
     res, cs = cc.drive(acc, "ladder", 10 if tier == "quick" else 100, 2, "ladder", ["classic", "cl21"])
     acc.violations += cc.records("C03", res, cs, KINDS)
-    acc.nontrivial = sum(v for k, v in acc.counts.items() if k.endswith("_ok"))
+    cc.exhaustive(acc, "C03", tier, ["classic", "cl21"])
+    acc.nontrivial += sum(v for k, v in acc.counts.items() if k.endswith("_ok"))
 
 
 def replay(path):
